@@ -797,12 +797,13 @@ Section Sweep.
     pose proof (rp_mlen_le (spoint j)) as X. specialize (E3 E). unfold imask in E3. cbn in X. cbn. lia.
   Qed.
 
-  Theorem sweep_locate : forall p, pt_seek_aux None (squash_spec (map asg L)) a plen = Some p ->
+  (* any kept point that is greatest among the kept points not above (a, plen) carries the
+     location of the innermost eligible item *)
+  Theorem sweep_locate_gen : forall p, In p (squash_spec (map asg L)) -> keyle_q p a plen ->
+    (forall r, In r (squash_spec (map asg L)) -> keyle_q r a plen -> keyle r p) ->
     exists t, In t its /\ p_loc p = i_l t /\ inE t /\ (forall j, In j its -> inE j -> j = t \/ ilt j t).
   Proof.
-    intros p Hseek.
-    pose proof (pt_seek_spec (squash_spec (map asg L)) a plen None I) as Sp. rewrite Hseek in Sp.
-    destruct Sp as [[Hin|C] [Hle [Hmax _]]]; [|discriminate C].
+    intros p Hin Hle Hmax.
     destruct (squash_in _ _ Hin) as [o1 [o2 [Eo Hns]]].
     destruct (map_split asg L o1 p o2 Eo) as [l1 [q [l2 [EL [_ [Ep E2]]]]]]. subst o2.
     assert (Hq : In q L) by (rewrite EL; apply in_or_app; right; left; auto).
@@ -870,6 +871,26 @@ Section Sweep.
       + apply Bool.negb_true_iff. apply pless_asym. apply pless_ip_lt. cbn. exact Sj.
       + destruct (has_end j); auto. cbn [negb orb]. apply pless_ip_lt. cbn.
         destruct Ej as [_ [Ej _]]. lia.
+  Qed.
+
+  Theorem sweep_locate : forall p, pt_seek_aux None (squash_spec (map asg L)) a plen = Some p ->
+    exists t, In t its /\ p_loc p = i_l t /\ inE t /\ (forall j, In j its -> inE j -> j = t \/ ilt j t).
+  Proof.
+    intros p Hseek.
+    pose proof (pt_seek_spec (squash_spec (map asg L)) a plen None I) as Sp. rewrite Hseek in Sp.
+    destruct Sp as [[Hin|C] [Hle [Hmax _]]]; [|discriminate C].
+    apply sweep_locate_gen; auto.
+  Qed.
+
+  (* every kept point lies below 2^128 *)
+  Lemma kept_ip_lt : forall p, In p (squash_spec (map asg L)) -> p_ip p < two128.
+  Proof.
+    intros p Hin. destruct (squash_in _ _ Hin) as [o1 [o2 [Eo _]]].
+    destruct (map_split asg L o1 p o2 Eo) as [l1 [q [l2 [EL [_ [Ep _]]]]]].
+    assert (Hq : In q L) by (rewrite EL; apply in_or_app; right; left; auto).
+    rewrite Ep. unfold asg. cbn [p_ip]. apply in_L in Hq. destruct Hq as [i [Hi [ -> |[He -> ]]]].
+    - cbn [spoint p_ip]. destruct (H_range i Hi) as [R1 R2]. lia.
+    - cbn [epoint p_ip]. apply has_end_iff. exact He.
   Qed.
 
   (* the search always finds a point: the Start point of the bottom item *)
